@@ -217,6 +217,76 @@ def fault_variants(profile, n, seed, per_scenario, tag, fault_calls=None):
     return out
 
 
+def schedule_variants(profile, n, seed, singles, pairs, tag):
+    """Base concurrent histories are run once without preemption to *measure* the yield points of each
+    thread in each `par` statement; variants add one or two preemptions at measured yield points."""
+    import copy
+    import random
+    base = []
+    for i in range(n):
+        sc = gen.make_scenario(seed * 1_000_000 + i, profile)
+        sc['id'] = '%s-%s' % (tag, sc['id'])
+        base.append(sc)
+    traces = runner.run_scenarios(base)
+    out = list(base)
+    rnd = random.Random('sched:%d' % seed)
+    for sc, t in zip(base, traces):
+        pars = t.get('par') or []
+        # indices of build steps that contain a par statement, in execution order
+        par_steps = [ix for ix, st in enumerate(sc['steps']) if st['op'] == 'build'
+                     and any(x.get('s') == 'par' for x in st.get('root', []))]
+        for pi, info in enumerate(pars[:len(par_steps)]):
+            pts = [(th, k) for th, y in enumerate(info['yields']) for k in range(1, y + 1)]
+            if not pts:
+                continue
+            chosen = pts if singles == 0 else rnd.sample(pts, min(singles, len(pts)))
+            sets = [[p] for p in chosen]
+            for _ in range(pairs):
+                a, b = rnd.choice(pts), rnd.choice(pts)
+                sets.append([a, b])
+                sets.append([a, b, rnd.choice(pts)])
+            for si, ps in enumerate(sets):
+                v = copy.deepcopy(sc)
+                for x in v['steps'][par_steps[pi]]['root']:
+                    if x.get('s') == 'par':
+                        x['preempt'] = [list(p) for p in ps]
+                v['id'] = '%s@p%d.%d' % (sc['id'], pi, si)
+                out.append(v)
+            # random-priority schedules
+            for ri in range(2 if singles else 6):
+                v = copy.deepcopy(sc)
+                for x in v['steps'][par_steps[pi]]['root']:
+                    if x.get('s') == 'par':
+                        x['rseed'] = rnd.randrange(1 << 30)
+                        x['p_switch'] = rnd.choice([0.05, 0.15, 0.4])
+                v['id'] = '%s@r%d.%d' % (sc['id'], pi, ri)
+                out.append(v)
+    return out
+
+
+def run_thread_property(pid, tier, seed, scale=1.0):
+    t0 = time.time()
+    P = props.PROPS[pid]
+    nq, nt, sq, st_, pq, pt = P['thread_units']
+    n = int((nq if tier == 'quick' else nt) * scale)
+    scs = schedule_variants(P.get('thread_profile', 'threads'), n, seed, sq if tier == 'quick' else st_,
+                            pq if tier == 'quick' else pt, pid)
+    dstats, dscs, dmach = design_level(pid, tier, seed, scale)
+    outs = []
+    if dmach:
+        o = runner.Outcome()
+        o.machinery = dmach
+        outs.append(o)
+    CH = 6000
+    for i in range(0, len(scs), CH):
+        outs.append(runner.judge(pid, scs[i:i + CH], set(P['owned']), P['nontrivial'], tlc))
+    return _finish(pid, tier, seed, t0, outs, dstats, P['rule'], ASSUME + [
+        'schedules = preemptions at measured yield points (interposed OS calls, lock acquire/release) of real '
+        'threads under a cooperative scheduler; preemptions inside pure Python code between yield points are not explored',
+        'operations issued concurrently are independent (as the property states); the recorded run is judged against '
+        'the sequential contract in claim order'])
+
+
 def run_fault_property(pid, tier, seed, scale=1.0):
     t0 = time.time()
     P = props.PROPS[pid]
@@ -247,6 +317,43 @@ def run_fault_property(pid, tier, seed, scale=1.0):
     return _finish(pid, tier, seed, t0, outs, dstats, P['rule'], ASSUME + [
         'fault space = the library\'s own mkdir/makedirs/rename/cache-open/cache-write calls issued before '
         'commit or rollback starts (C14 statement); one fault per execution'])
+
+
+def run_property(pid, tier, seed, scale=1.0):
+    """Scenario units (random / structured / regress), fault-injection variants, schedule variants and
+    the design-level TLC jobs of one property, all validated against the contract."""
+    t0 = time.time()
+    P = props.PROPS[pid]
+    scs = scenarios_for(pid, tier, seed, scale)
+    assume = list(ASSUME)
+    if P.get('fault_units'):
+        nq, nt, per_q, per_t = P['fault_units']
+        n = int((nq if tier == 'quick' else nt) * scale)
+        scs += fault_variants(P.get('fault_profile', 'fault'), n, seed, per_q if tier == 'quick' else per_t, pid,
+                              P.get('fault_calls'))
+        assume.append('fault space = the library\'s own mkdir/makedirs/rename/cache-open/cache-write calls issued '
+                      'before commit or rollback starts (C14 statement); one fault per execution')
+    if P.get('thread_units'):
+        nq, nt, sq, st_, pq, pt = P['thread_units']
+        n = int((nq if tier == 'quick' else nt) * scale)
+        scs += schedule_variants(P.get('thread_profile', 'threads'), n, seed, sq if tier == 'quick' else st_,
+                                 pq if tier == 'quick' else pt, pid)
+        assume += ['schedules = preemptions at measured yield points (interposed OS calls, lock acquire/release) of '
+                   'real threads under a cooperative scheduler; preemptions inside pure Python code between yield '
+                   'points are not explored',
+                   'operations issued concurrently are independent (as the property states); the recorded run is '
+                   'judged against the sequential contract in claim order']
+    dstats, dscs, dmach = design_level(pid, tier, seed, scale)
+    scs = dscs + scs
+    outs = []
+    if dmach:
+        o = runner.Outcome()
+        o.machinery = dmach
+        outs.append(o)
+    CH = 6000
+    for i in range(0, len(scs), CH):
+        outs.append(runner.judge(pid, scs[i:i + CH], set(P['owned']), P['nontrivial'], tlc))
+    return _finish(pid, tier, seed, t0, outs, dstats, P['rule'], assume)
 
 
 def replay(pid, path):
